@@ -729,9 +729,6 @@ func (eval Evaluator) tensorStandard(op0 *rlwe.Ciphertext, op1 *rlwe.Element[rin
 		c00 = eval.buffQ[0]
 		c01 = eval.buffQ[1]
 
-		c0 = opOut.Value[0]
-		c1 = opOut.Value[1]
-
 		if !relin {
 			opOut.Resize(2, opOut.Level())
 			c2 = opOut.Value[2]
@@ -739,6 +736,10 @@ func (eval Evaluator) tensorStandard(op0 *rlwe.Ciphertext, op1 *rlwe.Element[rin
 			opOut.Resize(1, opOut.Level())
 			c2 = eval.buffQ[2]
 		}
+
+		// After the resize: the receiver may have had degree 0.
+		c0 = opOut.Value[0]
+		c1 = opOut.Value[1]
 
 		// Avoid overwriting if the second input is the output
 		var tmp0, tmp1 *rlwe.Element[ring.Poly]
@@ -1356,9 +1357,6 @@ func (eval Evaluator) mulRelinThenAdd(op0 *rlwe.Ciphertext, op1 *rlwe.Element[ri
 		c00 = eval.buffQ[0]
 		c01 = eval.buffQ[1]
 
-		c0 = opOut.Value[0]
-		c1 = opOut.Value[1]
-
 		if !relin {
 			opOut.Resize(2, level)
 			c2 = opOut.Value[2]
@@ -1366,6 +1364,10 @@ func (eval Evaluator) mulRelinThenAdd(op0 *rlwe.Ciphertext, op1 *rlwe.Element[ri
 			opOut.Resize(utils.Max(1, opOut.Degree()), level)
 			c2 = eval.buffQ[2]
 		}
+
+		// After the resize: the receiver may have had degree 0.
+		c0 = opOut.Value[0]
+		c1 = opOut.Value[1]
 
 		tmp0, tmp1 := op0.El(), op1.El()
 
